@@ -45,5 +45,9 @@ def run(ctx):
                 jobs.append((cfg, gen(), 'random', n, ctx['seed'], ()))
                 jobs.append((cfg, gen(), 'pct', n, ctx['seed'], ('--depth', '3')))
                 jobs.append((cfg, [queue_program(rng, 1, 9, pushy=0.7)[0]], 'opseq', 1, ctx['seed'], ()))
+            # ownership hand-over is by release/acquire on the slot: an element (or its storage) touched by the previous owner after
+            # the hand-over shows up as a conflicting plain access without happens-before (the scheduler cannot preempt between an
+            # atomic store and the plain accesses that follow it, the race detector sees them regardless of the interleaving)
+            jobs.append((dict({'q': q, 'elem': elem, 'drain': '1', 'race': '1'}, **extra), queue_program(rng, 3, 3, pushy=0.6), 'random', n // 2, ctx['seed'] + 3, ()))
         do_search(ctx, H, jobs, name, classify=lambda c, h, f, name=name: {'harness': name})
     return None
